@@ -23,7 +23,8 @@ def _pack(obls, probes, prop):
     for o in obls:
         if prop is None or prop in o.props:
             out.append({"name": o.name, "kind": o.kind, "at": o.where, "clause": o.text, "props": list(o.props),
-                        "smt2": solve.to_smt2(o.pc, o.goal, get_model=True)})
+                        "smt2": solve.to_smt2(o.pc, o.goal, get_model=True),
+                        "core": solve.to_smt2(o.pc[o.nglob:], o.goal) if getattr(o, "nglob", 0) else None})
     pr = []
     for p in probes:
         pr.append({"name": p[0], "pc": solve.to_smt2(p[1]), "base": solve.to_smt2(p[2]) if len(p) > 2 and p[2] is not None else None})
@@ -40,6 +41,8 @@ def verify_target(args):
         if kind == "function":
             con = reg.contracts[name]
             res = eng.verify(con)
+            if len(res["obligations"]) + res["trivial"] == 0:
+                return {"target": name, "status": "error", "reason": "the function generated no obligation at all (%d path(s)): the contract did not attach" % res["paths"]}
             obls, probes = _pack(res["obligations"], res["probes"], prop)
             return {"target": name, "status": "ok", "obligations": obls, "probes": probes, "paths": res["paths"],
                     "n_all": len(res["obligations"]), "trivial": res["trivial"], "ghost_assumes": res["ghost_assumes"],
